@@ -9,7 +9,8 @@ none of the checks may raise an alarm on them.
 import json, os, subprocess, sys, time
 VERIF = os.path.dirname(os.path.dirname(os.path.abspath(__file__)))
 REPO = "/repo"
-GOENV = dict(os.environ, GOFLAGS="-mod=mod", GOPROXY="off", GOSUMDB="off", GOTOOLCHAIN="local")
+GOENV = dict(os.environ, GOFLAGS="-mod=mod", GOPROXY="off", GOSUMDB="off", GOTOOLCHAIN="local",
+             GOCACHE="/tmp/gocache-iso")  # scratch worktrees get their own build cache: it is wiped with them (the shared one grew to 114 GB)
 W = "/tmp/harmw"
 IDS = ["C%02d" % i for i in range(1, 21)]
 
